@@ -483,9 +483,14 @@ pub fn do_navigate_command_string(mathml: Element, nav_command: &'static str) ->
         }
 
         let nav_mathml = get_node_by_id(mathml, &nav_position.current_node);
+        #[cfg(mathcat_verif)]
+        verif_log_try(loop_count, &nav_position.current_node, nav_position.current_node_offset, &nav_state.mode, nav_state.speak_overview,
+                      nav_mathml.is_some(), context_get_variable(context, "SpeakExpression", mathml)?.0.unwrap() == "true");
         if nav_mathml.is_some() && context_get_variable(context, "SpeakExpression", mathml)?.0.unwrap() == "true" {
             // Speak/Overview of where we landed (if we are supposed to speak it)
             let node_speech = speak(mathml, nav_position.current_node, use_read_rules)?;
+            #[cfg(mathcat_verif)]
+            verif_log_speech_empty(node_speech.is_empty());
             // debug!("node_speech: '{}'", node_speech);
             if node_speech.is_empty() {
                 // try again in loop
@@ -2046,4 +2051,58 @@ mod tests {
             });
         }
     }
+}
+
+// ---- verification hooks (compiled only with --cfg mathcat_verif); see /verif/DESIGN.md §5 (H1)
+#[cfg(mathcat_verif)]
+thread_local!{
+    static VERIF_NAV_LOG: RefCell<Vec<String>> = const { RefCell::new(Vec::new()) };
+}
+
+#[cfg(mathcat_verif)]
+fn verif_json_str(s: &str) -> String {
+    let mut out = String::from("\"");
+    for ch in s.chars() {
+        match ch {
+            '"' => out.push_str("\\\""),
+            '\\' => out.push_str("\\\\"),
+            c if (c as u32) < 0x20 => out.push_str(&format!("\\u{:04x}", c as u32)),
+            c => out.push(c),
+        }
+    }
+    out.push('"');
+    return out;
+}
+
+#[cfg(mathcat_verif)]
+fn verif_log_try(loop_count: usize, node: &str, offset: usize, mode: &str, overview: bool, in_tree: bool, speak_expr: bool) {
+    VERIF_NAV_LOG.with(|log| log.borrow_mut().push(format!(
+        "{{\"try\":{},\"node\":{},\"off\":{},\"mode\":{},\"overview\":{},\"in_tree\":{},\"speak\":{}}}",
+        loop_count, verif_json_str(node), offset, verif_json_str(mode), overview, in_tree, speak_expr)));
+}
+
+#[cfg(mathcat_verif)]
+fn verif_log_speech_empty(is_empty: bool) {
+    VERIF_NAV_LOG.with(|log| log.borrow_mut().push(format!("{{\"speech_empty\":{}}}", is_empty)));
+}
+
+/// The per-try rule outputs logged since the last call (JSON objects, one per entry).
+#[cfg(mathcat_verif)]
+pub fn verif_take_nav_log() -> Vec<String> {
+    return VERIF_NAV_LOG.with(|log| log.borrow_mut().drain(..).collect());
+}
+
+/// The navigation state as JSON: position stack (bottom first), command stack, place markers, where-am-i, mode, overview.
+#[cfg(mathcat_verif)]
+pub fn verif_nav_state() -> String {
+    return NAVIGATION_STATE.with(|nav_state| {
+        let nav_state = nav_state.borrow();
+        let pos = |p: &NavigationPosition| format!("[{},{}]", verif_json_str(&p.current_node), p.current_node_offset);
+        let stack: Vec<String> = nav_state.position_stack.iter().map(pos).collect();
+        let cmds: Vec<String> = nav_state.command_stack.iter().map(|c| verif_json_str(c)).collect();
+        let markers: Vec<String> = nav_state.place_markers.iter().map(pos).collect();
+        return format!("{{\"positions\":[{}],\"commands\":[{}],\"markers\":[{}],\"where_am_i\":{},\"mode\":{},\"overview\":{}}}",
+            stack.join(","), cmds.join(","), markers.join(","), pos(&nav_state.where_am_i),
+            verif_json_str(&nav_state.mode), nav_state.speak_overview);
+    });
 }
